@@ -5,7 +5,7 @@ from pyvc.spec import is_ascii_identifier, is_keyword
 
 U = "pyopenapi_gen.core.utils"
 
-c = contract(f"{U}:NameSanitizer.sanitize_method_name", props=["C20"], types={"name": "str"}, nothrow=True, split=True)
+c = contract(f"{U}:NameSanitizer.sanitize_method_name", props=["C20"], types={"name": "str"}, nothrow=True, split=True, functional="sanitize_method_name")
 
 @c.ensures(note="C20 statement: total on str; result is a non-empty ASCII identifier and not a keyword (method, field and parameter names)")
 def smn_identifier(name, result):
